@@ -350,6 +350,9 @@ func GetSegLatestOrEarliestVal(runningSegStat *structs.SegStats, currSegStat *st
 			elVal = currSegStat.TimeStats.LatestVal
 		}
 		runningSegStat.TimeStats.LatestVal = elVal
+		// keep the running timestamp in step with the running value, otherwise the
+		// next segment is compared against a stale timestamp
+		runningSegStat.TimeStats.LatestTs = result
 		return &runningSegStat.TimeStats.LatestVal, nil
 	} else {
 		if runningSegStat.TimeStats.EarliestTs.CVal.(uint64) == result.CVal.(uint64) {
@@ -358,6 +361,7 @@ func GetSegLatestOrEarliestVal(runningSegStat *structs.SegStats, currSegStat *st
 			elVal = currSegStat.TimeStats.EarliestVal
 		}
 		runningSegStat.TimeStats.EarliestVal = elVal
+		runningSegStat.TimeStats.EarliestTs = result
 		return &runningSegStat.TimeStats.EarliestVal, nil
 	}
 }
